@@ -1168,7 +1168,7 @@ _single = {"cases": cases, "impl": impl, "oracle": oracle, "compare": compare, "
 def cases(rng, tier):  # noqa: F811
     yield from _single["cases"](rng, tier)
     orng = __import__("random").Random(rng.random())
-    for c in pair_cases(rng, tier):
+    for c in (pair_cases(rng, tier) if PL.enabled() else ()):
         c["omit"] = orng.random() < 0.5
         yield c
 
